@@ -153,3 +153,77 @@ func VerifBatch(L int, batchSize int, withErr int, closeAfter int) {
 	vAssert(src.afterClose == 0, "C11:batch/no-next-after-close")
 	vCover("batch")
 }
+
+// vQuietSrc: L items available as fast as the producer asks for them (so their arrival times are
+// the scheduler's choice of when the producer runs), then silence: the source neither ends nor fails.
+type vQuietSrc struct {
+	n, pos int
+	handed []time.Time
+	closes int
+}
+
+func (s *vQuietSrc) Next(ctx context.Context) (int, error) {
+	if s.pos >= s.n {
+		<-ctx.Done()
+		return 0, ctx.Err()
+	}
+	now := time.Now()
+	vAtomic(func() { s.handed = append(s.handed, now) })
+	s.pos++
+	return s.pos - 1, nil
+}
+func (s *vQuietSrc) Close() { vAtomic(func() { s.closes++ }) }
+
+// VerifBatchQuiet: a burst of L items and then a silent source, with a consumer that keeps asking
+// (up to `calls` times). Observed once everything has come to rest (timers included): every batch
+// handed out was non-empty, within batchSize, in order, underfilled only after its oldest item
+// waited maxWait - and nothing is held back from the waiting consumer. The path ends there (Close
+// and end-of-source are VerifBatch's and VerifBatchClose's business).
+// args: items L, batchSize, consumer calls
+// (unbounded schedules for one item; two and three items under a preemption bound in the quick tier,
+// two items with every schedule in the thorough tier)
+//verif:case C11 quick VerifBatchQuiet 1 2 2 @fires=3 @noreplay=1 @arith=1
+//verif:case C11 quick VerifBatchQuiet 2 2 2 @fires=3 @noreplay=1 @arith=1 @preempt=1
+//verif:case C11 quick VerifBatchQuiet 3 2 3 @fires=3 @noreplay=1 @arith=1 @preempt=0
+//verif:case C11 thorough VerifBatchQuiet 2 2 2 @fires=3 @noreplay=1 @arith=1
+//verif:case C11 thorough VerifBatchQuiet 2 1 3 @fires=3 @noreplay=1 @arith=1 @preempt=2
+//verif:case C11 thorough VerifBatchQuiet 3 2 3 @fires=3 @noreplay=1 @arith=1 @preempt=1
+func VerifBatchQuiet(L int, batchSize int, calls int) {
+	src := &vQuietSrc{n: L}
+	maxWait := time.Duration(vNondetInt("maxWait"))
+	vAssume(vAnd(maxWait > 0, maxWait < 1<<40))
+	out := Batch[int](src, maxWait, batchSize)
+	ctx := context.Background()
+	got, done := 0, 0
+	go func() {
+		for call := 0; call < calls; call++ {
+			batch, err := out.Next(ctx)
+			now := time.Now()
+			vAssert(err == nil, "C11:batchquiet/no-error-from-a-silent-source")
+			vAssert(len(batch) >= 1, "C11:batch/non-empty")
+			vAssert(len(batch) <= batchSize, "C11:batch/at-most-batchsize")
+			for i, v := range batch {
+				vAssert(v == got+i, "C11:batch/items-in-source-order-nothing-lost-or-duplicated")
+			}
+			var oldest time.Time
+			vAtomic(func() {
+				if got < len(src.handed) {
+					oldest = src.handed[got]
+				}
+			})
+			if len(batch) >= 1 && len(batch) < batchSize {
+				vAssert(now.Sub(oldest) >= maxWait, "C11:batch/underfilled-batch-only-after-maxwait")
+			}
+			vAtomic(func() {
+				got += len(batch)
+				done++
+			})
+		}
+	}()
+	vQuiesce()
+	vAssert(got == L || done == calls, "C11:batchquiet/nothing-held-back-from-a-waiting-consumer")
+	vCover("batch-quiet")
+	if vNative() {
+		out.Close()
+	}
+}
